@@ -41,7 +41,7 @@ impl Property for C28 {
         Meta {
             id: "C28",
             level: "exploration",
-            rule: "one evaluation = one real SDK operation (Reader::with_stream sync/async, Builder::add_ingredient_from_stream, Builder::sign with or without a signer time-authority URL) on an asset with an embedded, remote-only (set_remote_url + set_no_embed) or remote+embedded manifest, under a seeded combination of verify.remote_manifest_fetch, verify.ocsp_fetch, core.allowed_network_hosts, with the simulated wire under the default HTTP stack recording every request and the scripted manifest host / TSA behaving honestly or misbehaving (404, transport error, truncated body, error mid-body, lying Content-Length). Oracle on the wire log: a request is forbidden iff the setting that enables its class is off or no URL of that class was configured (remote manifest: host manifests.sim.example; time stamp: host tsa.sim.example; anything else: always forbidden) - allowed requests are never required; the fetched URI equals the configured one; with fetching off a remote-only asset yields Err(RemoteManifestUrl(u)) with u equal to the embedded URL. Distinct = (operation, asset kind, settings, peer behaviour, URL shape)",
+            rule: "one evaluation = one real SDK operation (Reader::with_stream sync/async, Builder::add_ingredient_from_stream, Builder::sign with or without a signer time-authority URL) on an asset with an embedded, remote-only (set_remote_url + set_no_embed) or remote+embedded manifest, or an embedded manifest signed with a certificate of the PKI pool whose AIA extension names an OCSP responder (ocsp.sim.example), under a seeded combination of verify.remote_manifest_fetch, verify.ocsp_fetch, core.allowed_network_hosts, with the simulated wire under the default HTTP stack recording every request and the scripted manifest host / TSA behaving honestly or misbehaving (404, transport error, truncated body, error mid-body, lying Content-Length). Oracle on the wire log: a request is forbidden iff the setting that enables its class is off or no URL of that class was configured (remote manifest: host manifests.sim.example; time stamp: host tsa.sim.example; OCSP: host ocsp.sim.example, allowed only while validating the AIA-certificate asset with verify.ocsp_fetch on and no allow-list shutting the responder out; anything else: always forbidden) - allowed requests are never required; the fetched URI equals the configured one; with fetching off a remote-only asset yields Err(RemoteManifestUrl(u)) with u equal to the embedded URL. Distinct = (operation, asset kind, settings, peer behaviour, URL shape)",
             assumptions: &["OCSP and did:web URLs are never configured in this workload (fixture certificates carry no AIA), so any such request would be forbidden", "generated URLs are already in the url crate's normal form"],
             real: &["Reader, Builder, Store::fetch_remote_manifest, default Signer::send_timestamp_request (own Context::new()), default resolver stack"],
             stubbed: &["HTTP client (SimNet)", "manifest host and TSA peers (scripted)"],
@@ -76,10 +76,30 @@ impl Property for C28 {
             let m = b.sign(sdk::make_signer("ed25519").as_ref(), fmt.mime(), &mut std::io::Cursor::new(asset.clone()), &mut d).map_err(|e| err_kind(&e))?;
             Ok((d.into_inner(), m))
         };
-        let kinds = ["embedded", "remote-only", "remote+embedded"];
+        // a fourth kind: embedded manifest signed with a certificate that names an OCSP responder
+        // (ocsp.sim.example) in its AIA extension - the only kind that can provoke OCSP traffic
+        let make_aia = || -> Result<(Vec<u8>, Vec<u8>), String> {
+            if !crate::pki::pool().join("root.pem").exists() {
+                return Err("no-pki-pool".into());
+            }
+            let signer = crate::pki::ee_signer("ee_now")?;
+            let mut b = Builder::from_shared_context(&base_ctx).with_definition(sdk::simple_definition("c28")).map_err(|e| err_kind(&e))?;
+            let mut d = std::io::Cursor::new(Vec::new());
+            let m = b.sign(signer.as_ref(), fmt.mime(), &mut std::io::Cursor::new(asset.clone()), &mut d).map_err(|e| err_kind(&e))?;
+            Ok((d.into_inner(), m))
+        };
+        let kinds = ["embedded", "remote-only", "remote+embedded", "embedded-aia-cert"];
         let mut assets_k: Vec<Option<(Vec<u8>, Vec<u8>)>> = Vec::new();
         for (i, _) in kinds.iter().enumerate() {
-            match make(i >= 1, i == 1) {
+            let made = if i == 3 {
+                c2pa::verif::set_clock(Some((crate::pki::window("ee_now").0 + crate::pki::window("ee_now").1) / 2));
+                let x = make_aia();
+                c2pa::verif::set_clock(None);
+                x
+            } else {
+                make(i == 1 || i == 2, i == 1)
+            };
+            match made {
                 Ok(x) => assets_k.push(Some(x)),
                 Err(e) => {
                     out.probe(&format!("cannot-make:{}:{}:{e}", kinds[i], fmt.name()));
@@ -90,7 +110,7 @@ impl Property for C28 {
         let cases = if rc.tier == Tier::Quick { 40 } else { 60 };
         for c in 0..cases {
             let sub = c as u64;
-            let kind = r.below(3) as usize;
+            let kind = r.below(4) as usize;
             let fetch = r.chance(1, 2);
             let ocsp = r.chance(1, 2);
             let op = r.below(5); // 0,1 read sync/async, 2 add ingredient, 3 sign no tsa, 4 sign with tsa
@@ -101,6 +121,10 @@ impl Property for C28 {
             }
             let Some((bytes, manifest)) = assets_k[kind].clone() else { continue };
             let mut settings = json!({"verify": {"remote_manifest_fetch": fetch, "ocsp_fetch": ocsp}});
+            if kind == 3 {
+                // the pool's root is trusted, so that the chain is looked at like a real one
+                settings["trust"] = json!({"trust_anchors": String::from_utf8_lossy(&crate::pki::read("root.pem")), "trust_config": sdk::TRUST_CONFIG});
+            }
             match allow_list {
                 2 => settings["core"] = json!({"allowed_network_hosts": ["manifests.sim.example", "manifests.sim.example:8080", "tsa.sim.example"]}),
                 3 => settings["core"] = json!({"allowed_network_hosts": ["other.sim.example"]}),
@@ -130,6 +154,16 @@ impl Property for C28 {
                     }
                     if peer == 4 {
                         resp.headers.push(("content-length".into(), "18446744073709551615".into()));
+                    }
+                    resp
+                } else if req.uri.contains("ocsp.sim.example") {
+                    let mut resp = Resp::ok(crate::pki::read("ocsp_good.der"));
+                    resp.headers.push(("content-type".into(), "application/ocsp-response".into()));
+                    match peer {
+                        0 => resp = Resp::status(404),
+                        1 => resp.transport_error = true,
+                        2 => resp.body.truncate(40),
+                        _ => {}
                     }
                     resp
                 } else {
@@ -170,12 +204,15 @@ impl Property for C28 {
             out.keys.push(hash_str(&format!("{tag}|{url}")));
             out.fault(["peer_404", "peer_transport_error", "peer_truncated_body", "peer_body_error", "peer_content_length_max", "peer_content_length_64g", "peer_content_length_short", "peer_honest"][peer as usize]);
             out.probe_n("requests_on_wire", log.len() as u64);
-            let references_remote = kind >= 1 && op <= 2;
+            let references_remote = (kind == 1 || kind == 2) && op <= 2;
             for rq in &log {
-                let class = if rq.uri.contains("manifests.sim.example") { "remote-manifest" } else if rq.uri.contains("tsa.sim.example") { "timestamp" } else { "other" };
+                let class = if rq.uri.contains("manifests.sim.example") { "remote-manifest" } else if rq.uri.contains("tsa.sim.example") { "timestamp" } else if rq.uri.contains("ocsp.sim.example") { "ocsp" } else { "other" };
                 let forbidden = match class {
                     "remote-manifest" => !fetch || !references_remote || allow_list == 3,
                     "timestamp" => op != 4,
+                    // only while validating the asset whose certificate names the responder, with
+                    // verify.ocsp_fetch on and the responder not shut out by an allow-list
+                    "ocsp" => !ocsp || kind != 3 || op > 2 || allow_list >= 2,
                     _ => true,
                 };
                 if forbidden {
@@ -190,6 +227,8 @@ impl Property for C28 {
                         out.violate(sub, &format!("fetched-url-differs-from-configured:{cls}"), "C28 the request goes to the URL that was configured",
                             json!({"scenario": tag, "configured": url, "requested": rq.uri}));
                     }
+                } else if class == "ocsp" {
+                    out.probe("allowed-ocsp-request");
                 } else {
                     out.probe("allowed-timestamp-request");
                 }
